@@ -609,6 +609,25 @@ func checkDerefHelpers(r *Run, prog *Program, pfx string) {
 		if !callsElem {
 			continue
 		}
+		// … under a test for kind Ptr: that is what makes it a pointer-stripping helper (a helper that takes the element
+		// type of an array is something else)
+		testsPtr := false
+		for _, b := range fn.Blocks {
+			for _, ins := range b.Instrs {
+				if bo, ok := ins.(*ssa.BinOp); ok && (bo.Op == token.EQL || bo.Op == token.NEQ) {
+					for _, side := range []ssa.Value{bo.X, bo.Y} {
+						if c, isC := side.(*ssa.Const); isC && c.Value != nil && namedIs(c.Type(), "reflect", "Kind") {
+							if v, _ := constant.Int64Val(c.Value); v == int64(kPtr) {
+								testsPtr = true
+							}
+						}
+					}
+				}
+			}
+		}
+		if !testsPtr {
+			continue
+		}
 		n++
 		forbidden := ks(kPtr)
 		if isV {
